@@ -1,6 +1,6 @@
 (* C06 — the property theorems assembled from the lemma files (pieces preserved AND duration preserved). *)
 From Coq Require Import ZArith QArith List Bool Lia ZifyBool.
-Require Import QV.C06.Model QV.C06.Spec QV.C06.Proofs_base QV.C06.Proofs_struct QV.C06.Proofs_term.
+Require Import QV.C06.Model QV.C06.Spec QV.C06.Proofs_base QV.C06.Proofs_struct QV.C06.Proofs_term QV.C06.Proofs_wave.
 Import ListNotations.
 Open Scope Z_scope.
 
@@ -162,6 +162,35 @@ Proof.
 Qed.
 
 (* ------------------------------------------------------------------------------------------------------------------ *)
+(* the waveform-merging rewrites: same voltage function on [0, duration) *)
+
+Theorem oracle_sound : forall a b, Forall (fun p => (0 <= pdur p)%Q) a -> Forall (fun p => (0 <= pdur p)%Q) b ->
+  pieces_equivb a b = true -> same_play a b.
+Proof. intros. apply pequiv_sound, pieces_equivb_sound; auto. Qed.
+
+Theorem to_waveform_preserves : forall t x, tree_ok1b t = true -> to_waveform t = Ok x ->
+  same_play (wf_pieces x) (pieces t) /\ (wf_dur x == duration t)%Q.
+Proof.
+  intros t x Hok H. split; [apply pequiv_sound; eapply to_waveform_pequiv; eauto|eapply to_waveform_duration; eauto].
+Qed.
+
+Theorem make_compatible_preserves : forall min_len quantum sr t t', tree_ok1b t = true ->
+  make_compatible min_len quantum sr t = Ok t' ->
+  same_play (pieces t') (pieces t) /\ (duration t' == duration t)%Q
+  /\ ((0 < quantum)%Z -> (0 < sr)%Q -> leaves_ok min_len quantum sr t' = true).
+Proof.
+  intros ml q sr t t' Hok H. split; [apply pequiv_sound; eapply make_compatible_pequiv; eauto|].
+  split; [eapply make_compatible_duration; eauto|]. intros Hq Hsr. exact (make_compatible_post ml q sr t t' Hq Hsr Hok H).
+Qed.
+
+Theorem roll_preserves : forall mq q sr t t', (0 < q)%Z -> (0 < sr)%Q -> tree_ok1b t = true ->
+  roll_constant_waveforms mq q sr t = Ok t' -> same_play (pieces t') (pieces t) /\ (duration t' == duration t)%Q.
+Proof.
+  intros mq q sr t t' Hq Hsr Hok H.
+  split; [apply pequiv_sound; exact (roll_pequiv mq q sr t t' Hq Hsr Hok H)|exact (roll_duration mq q sr t t' Hq Hsr Hok H)].
+Qed.
+
+(* ------------------------------------------------------------------------------------------------------------------ *)
 (* the hypotheses are satisfiable on non-trivial inputs *)
 Definition ex_leaf (i : N) (r : Z) : tree := Node r (Some (WAtom i 1)) [] [].
 Definition ex_tree : tree :=
@@ -178,3 +207,13 @@ Example ex_split : exists t', split_one_child ex_tree None = Ok t' /\ t' <> ex_t
 Proof. eexists. split; [vm_compute; reflexivity|discriminate]. Qed.
 Example ex_unroll : exists t', unroll_child ex_tree 1 = Ok t' /\ t' <> ex_tree.
 Proof. eexists. split; [vm_compute; reflexivity|discriminate]. Qed.
+
+Definition ex_c (d : Q) (r : Z) : tree := Node r (Some (WConst d [(0%N, 1%Q)])) [] [].
+Definition ex_tree1 : tree := Node 2 None [] [ex_c 3 2; ex_leaf 5 2; ex_c 96 1].
+Example ex_tree1_ok : tree_ok1b ex_tree1 = true. Proof. reflexivity. Qed.
+Example ex_make_compatible : exists t', make_compatible 4 4 1 ex_tree1 = Ok t' /\ t' <> ex_tree1 /\ is_leaf t' = true.
+Proof. eexists. split; [vm_compute; reflexivity|]. split; [discriminate|reflexivity]. Qed.
+Example ex_roll : exists t', roll_constant_waveforms 2 16 1 ex_tree1 = Ok t' /\ t' <> ex_tree1.
+Proof. eexists. split; [vm_compute; reflexivity|discriminate]. Qed.
+Example ex_to_waveform : exists x, to_waveform ex_tree1 = Ok x /\ wf_dur x == 208.
+Proof. eexists. split; [vm_compute; reflexivity|reflexivity]. Qed.
